@@ -123,6 +123,13 @@ def op_keys(nm, npre, shape):
     return out
 
 
+NOSEARCH_CLS = ("inv", "null", "nullpath", "noevents", "nullfn")
+PATH_NOTE = ("path kind: operations that search a non-empty tree are not run in the registry unit - the path pointer "
+             "round-trips through the bytes of the ref-counted block (memcpy in create_src), CBMC does not recover "
+             "the pointer, strcmp answers stay symbolic and the node found becomes a symbolic pointer (measured: no "
+             "verdict in 600 s).  The path comparator and create_src's path case are quantified in C09.cmp.path in "
+             "all three call forms; register_mod_src / deregister_mod_src / the tree are kind-independent code that "
+             "the other six kinds exercise")
 QUICK_CLS = ("eq0", "eq1", "mid-r", "mid-l", "far32", "far31", "frac", "same-sum", "prefix")
 
 
@@ -134,6 +141,8 @@ def reg_jobs(tier):
             for op in OPS:
                 if op in (0, 1):
                     for cls, k2, extra in op_keys(nm, npre, shape):
+                        if nm == "path" and npre > 0 and cls not in NOSEARCH_CLS:
+                            continue        # see PATH_NOTE
                         if tier == "quick":
                             if npre == 2 and cls not in QUICK_CLS:
                                 continue
@@ -148,6 +157,8 @@ def reg_jobs(tier):
                     if npre == 0:
                         continue
                     for w in range(npre):
+                        if nm == "path":
+                            continue        # see PATH_NOTE
                         if tier == "quick" and not (two and (shape == 0 or w == 1)):
                             continue
                         js.append(reg_job(kind, npre, shape, op, w=w))
